@@ -155,3 +155,26 @@ def cover(db, ctx):
     src = render(lets.get("slice", {}))
     ctx.ob("get_eos-on-rest", "self.data[" in src and "self.position" in src and any(is_call(c) and path_ends(callee(c), "get_eos") for c, _ in walk(f.hir)),
            "get_eos is applied to `%s`" % src, fn=f)
+
+
+@rule("C16.bracket-level", "parenthesis_level never goes below zero: the decrement for a closing bracket is guarded by level > 0 (or saturating), so a "
+                           "stray closer cannot cancel a later opener")
+def bracket_level(db, ctx):
+    f = db.one("parenthesis_level", None)
+    decs = [(n, ps) for n, ps in walk(f.hir) if n.get("k") == "AssignOp" and n.get("op") == "Sub" and local_name(n["l"]) is not None]
+    sat = any(c.get("k") == "MethodCall" and c.get("method") in ("saturating_sub", "checked_sub") for c, _ in walk(f.hir))
+    if not decs and not sat:
+        raise AnchorMissing("parenthesis_level: level decrement")
+    for n, ps in decs:
+        nm = local_name(n["l"])
+        pcs = path_conditions(n["id"], f.hir) or []
+        guarded = False
+        for c, pol in pcs:
+            if isinstance(c, dict):
+                for a, p in atoms(c, pol):
+                    cm = cmp_atom(a)
+                    if cm and p and ((cm[0] == "Gt" and local_name(cm[1]) == nm and lit_int(cm[2]) == 0) or (cm[0] == "Ge" and local_name(cm[1]) == nm and lit_int(cm[2]) == 1)
+                                     or (cm[0] == "Ne" and local_name(cm[1]) == nm and lit_int(cm[2]) == 0)):
+                        guarded = True
+        ctx.ob("decrement-guarded", guarded, "`%s` is executed only when %s > 0: %s (a closer at level 0 must be ignored, not remembered as a negative balance)" % (render(n), nm, guarded), fn=f, site=n.get("sp"))
+    ctx.ob("returns-usize", f.info.get("output", "").startswith("std::result::Result<usize"), "parenthesis_level returns %s" % f.info.get("output", "")[:50], fn=f)
